@@ -255,6 +255,7 @@ def run(chk):
     codec.check_inplace(chk, "C05", 200 if chk.tier == "quick" else 3000)
     codec.check_layouts(chk, "C05", 240 if chk.tier == "quick" else 3000)
     codec.check_trimmed(chk, "C05", 96 if chk.tier == "quick" else 1200)
+    codec.check_partial_gaps(chk, "C05", 45 if chk.tier == "quick" else 600)
     chk.exhaustive = True
     chk.extra["exhaustive_scope"] = "all 2^n masks, n <= %d, per kind" % (8 if chk.tier == "quick" else 11)
 
